@@ -157,40 +157,38 @@ def rule_z5(ctx) -> None:
             ctx.finding("C18-Z5", "Balancer.rebalance:merge-vs-collect", reb.loc(m), "the statistics of a batch are merged under %s but its rows are collected under %s: the counters then cover batches whose rows are not in the output (or miss batches that are)" % (sorted(have) or "no condition", sorted(want) or "no condition"))
 
 
-def rule_z6(ctx) -> None:
+def rule_z6(ctx, pl=None) -> None:
     """balanced_cnt is computed by the rule-based stage from the comparator label and the carbon label alone (Z3).  The
     validator must label a row input-balanced under exactly those two tests (plus `not yet solved`), otherwise count and
     labels describe different sets."""
     ctx.rule("C18-Z6", "the validator labels a row solved under exactly: label == 'Balance', carbon label == 'balanced', not yet solved", 3)
-    prog = ctx.prog
-    vc = prog.func("synrbl.postprocess.Validator.check")
-    cfg = CFG(vc.node)
-    stores = [n for n in own_nodes(vc.node) if isinstance(n, ast.Assign) and isinstance(n.value, ast.Constant) and n.value.value is True and any(isinstance(t, ast.Subscript) and unparse(t.slice) == "self.solved_col" for t in n.targets)]
+    pl = pl or Pipeline(ctx)
+    solved = pl.solved_col.text
+    carbon = texts(ctx.balancer.get("__carbon_balance_col"))
+    st = next((x for x in pl.stages if x.attr == "input_validator"), None)
+    ctx.require(st is not None, "the input validator stage was not found in __run_pipeline")
+    stores = [s_ for s_ in st.stores if solved in s_.keytexts and isinstance(s_.value, ast.Constant) and s_.value.value is True]
     ctx.require(stores, "Validator.check no longer stores solved := True")
-    for st in stores:
-        row = next(unparse(t.value) for t in st.targets if isinstance(t, ast.Subscript))
-        kinds = {}
-        extra = []
-        for c, p in cfg.guards(cfg.node_of(st)):
-            nc = normal_compare(c, p)
-            txt = ("" if p else "not ") + unparse(c)
-            if nc and nc[1] == "==" and const_str(nc[2]) == "Balance" and isinstance(nc[0], ast.Name):
-                kinds["label"] = txt
-            elif nc and nc[1] == "==" and const_str(nc[2]) == "balanced" and unparse(nc[0]) == "%s[self.carbon_balance_col]" % row:
-                kinds["carbon"] = txt
-            elif not p and unparse(c) == "%s[self.solved_col]" % row:
-                kinds["unsolved"] = txt
-            elif nc and nc[1] in ("==", "is") and unparse(nc[0]) == "%s[self.solved_col]" % row and unparse(nc[2]) == "False":
-                kinds["unsolved"] = txt
+    for s_ in stores:
+        kinds, extra = {}, []
+        for a_ in s_.atoms:
+            if a_.kind == "var" and a_.op == "==" and a_.value == "Balance":
+                kinds["label"] = repr(a_)
+            elif a_.kind == "cmp" and set(map(str, a_.keys)) & carbon and a_.op == "==" and a_.value == "balanced":
+                kinds["carbon"] = repr(a_)
+            elif a_.kind == "truth" and a_.op == "not" and solved in set(map(str, a_.keys)):
+                kinds["unsolved"] = repr(a_)
+            elif a_.kind == "cmp" and solved in set(map(str, a_.keys)) and a_.op in ("==", "is") and a_.value is False:
+                kinds["unsolved"] = repr(a_)
             else:
-                extra.append(txt)
+                extra.append(repr(a_))
         for k in ("label", "carbon", "unsolved"):
-            ctx.instance("C18-Z6", "solved := True guarded by %s test: %s" % (k, kinds.get(k)), vc.loc(st), ok=k in kinds)
+            ctx.instance("C18-Z6", "solved := True guarded by %s test: %s" % (k, kinds.get(k)), s_.where(), ok=k in kinds)
             if k not in kinds:
-                ctx.finding("C18-Z6", "Validator.check:label-condition:missing-%s" % k, vc.loc(st), "the validator labels rows solved without the %s test that balanced_cnt is derived from" % k)
+                ctx.finding("C18-Z6", "Validator.check:label-condition:missing-%s" % k, s_.where(), "the validator labels rows solved without the %s test that balanced_cnt is derived from" % k)
         if extra:
-            ctx.instance("C18-Z6", "additional condition(s) on the label: %s" % extra, vc.loc(st), ok=False)
-            ctx.finding("C18-Z6", "Validator.check:label-condition:extra", vc.loc(st), "the validator labels a row solved only if additionally %s holds, a test balanced_cnt (computed in the rule-based stage from the comparator and carbon labels alone) does not apply: rows are counted as balanced but not labelled input-balanced" % extra)
+            ctx.instance("C18-Z6", "additional condition(s) on the label: %s" % extra, s_.where(), ok=False)
+            ctx.finding("C18-Z6", "Validator.check:label-condition:extra", s_.where(), "the validator labels a row solved only if additionally %s holds, a test balanced_cnt (computed in the rule-based stage from the comparator and carbon labels alone) does not apply: rows are counted as balanced but not labelled input-balanced" % extra)
 
 
 def rule_z8(ctx, pl) -> None:
